@@ -158,5 +158,5 @@ fn check(v: &AV, acc: &mut Acc) {
 }
 
 pub fn run(run: &Run) {
-    run.explore(&AddrValues { per_group: run.tier == Tier::Thorough, with_unix: true });
+    run.explore(&AddrValues { per_group: true, with_unix: true });
 }
